@@ -138,6 +138,17 @@ inline bool link_walk_enabled() {
   return on;
 }
 
+// The structural walk reads protected members of the containers (hash map `items` of intrusive `Item`s with prev / next /
+// key / size [/ value], `head`, `tail`). They are not part of the public interface: when a tree stores the recency order
+// differently the walk (and the aliasing operations that need the stored key object) are compiled out - the public-API
+// oracle, the heap balance and the sanitizers remain - and the run says so in its notes.
+inline void note_links_unavailable() {
+  static bool said = false;
+  if (said) return;
+  said = true;
+  verif::ctx().cls("links:layout-differs-walk-compiled-out");
+}
+
 // where in which history a check failed; formatted only when a check fails
 struct Where {
   const uint64_t* ops;
@@ -290,15 +301,32 @@ struct Stats {
 
 template <typename K>
 struct SetProbe : public phosg::LRUSet<K> {
-  typedef typename phosg::LRUSet<K>::Item Item;
-  // the key object stored in the container for k (nullptr when absent)
+  // the key object stored in the container for k (nullptr when absent - or when the layout does not expose it)
   const K* stored_key(const K& k) const {
-    auto f = this->items.find(k);
-    return f == this->items.end() ? nullptr : &f->first;
+    if constexpr (requires(const SetProbe& c) { static_cast<const K*>(&c.items.find(k)->first); }) {
+      auto f = this->items.find(k);
+      return f == this->items.end() ? nullptr : &f->first;
+    } else {
+      note_links_unavailable();
+      return nullptr;
+    }
   }
   // read-only structural walk: the intrusive list must be exactly the model's recency order
   void verify_links(const Model& m, const char* which, const Where& when) const {
     if (!link_walk_enabled()) return;
+    if constexpr (requires(const SetProbe& c) {
+                    c.head == c.tail;
+                    c.head == &c.items.begin()->second;
+                    c.head->prev == c.head->next;
+                    c.head->key == &c.items.begin()->first;
+                    static_cast<size_t>(c.head->size);
+                  }) {
+      verify_links_impl(m, which, when);
+    } else {
+      note_links_unavailable();
+    }
+  }
+  void verify_links_impl(const Model& m, const char* which, const Where& when) const {
     size_t n = m.l.size();
     VCHECK(this->items.size() == n, "links:item-count", which, ": hash map holds ", this->items.size(), " items, model ", n, " after ", when);
     if (n == 0) {
@@ -306,8 +334,8 @@ struct SetProbe : public phosg::LRUSet<K> {
       return;
     }
     VCHECK(this->head != nullptr && this->tail != nullptr, "links:null-head-tail", which, ": head or tail null with ", n, " items after ", when);
-    const Item* p = this->head;
-    const Item* prev = nullptr;
+    auto* p = this->head;
+    decltype(p) prev = nullptr;
     size_t i = 0;
     for (auto it = m.l.begin(); it != m.l.end(); ++it, ++i) {
       VCHECK(p != nullptr, "links:forward-chain-short", which, ": next chain ends after ", i, " of ", n, " items after ", when);
@@ -529,13 +557,31 @@ void replay_set(const uint64_t* ops, size_t n, Stats& st) {
 
 template <typename K, typename V>
 struct MapProbe : public phosg::LRUMap<K, V> {
-  typedef typename phosg::LRUMap<K, V>::Item Item;
   const K* stored_key(const K& k) const {
-    auto f = this->items.find(k);
-    return f == this->items.end() ? nullptr : &f->first;
+    if constexpr (requires(const MapProbe& c) { static_cast<const K*>(&c.items.find(k)->first); }) {
+      auto f = this->items.find(k);
+      return f == this->items.end() ? nullptr : &f->first;
+    } else {
+      note_links_unavailable();
+      return nullptr;
+    }
   }
   void verify_links(const Model& m, const char* which, const Where& when) const {
     if (!link_walk_enabled()) return;
+    if constexpr (requires(const MapProbe& c) {
+                    c.head == c.tail;
+                    c.head == &c.items.begin()->second;
+                    c.head->prev == c.head->next;
+                    c.head->key == &c.items.begin()->first;
+                    static_cast<size_t>(c.head->size);
+                    c.head->value == c.head->value;
+                  }) {
+      verify_links_impl(m, which, when);
+    } else {
+      note_links_unavailable();
+    }
+  }
+  void verify_links_impl(const Model& m, const char* which, const Where& when) const {
     size_t n = m.l.size();
     VCHECK(this->items.size() == n, "links:item-count", which, ": hash map holds ", this->items.size(), " items, model ", n, " after ", when);
     if (n == 0) {
@@ -543,8 +589,8 @@ struct MapProbe : public phosg::LRUMap<K, V> {
       return;
     }
     VCHECK(this->head != nullptr && this->tail != nullptr, "links:null-head-tail", which, ": head or tail null with ", n, " items after ", when);
-    const Item* p = this->head;
-    const Item* prev = nullptr;
+    auto* p = this->head;
+    decltype(p) prev = nullptr;
     size_t i = 0;
     for (auto it = m.l.begin(); it != m.l.end(); ++it, ++i) {
       VCHECK(p != nullptr, "links:forward-chain-short", which, ": next chain ends after ", i, " of ", n, " items after ", when);
